@@ -469,3 +469,53 @@ def gen_malformed(rng) -> Scenario:
     else:
         code = asm.assemble([("push", 4), "CALLDATALOAD"]) + bytes([rng.choice([0x0C, 0x21, 0x49, 0x4A, 0xA5, 0xEF, 0xF6, 0xFF])]) + b"\x00"
     return Scenario({MAIN: code}, nargs=1, name=f"malformed{k}")
+
+
+def gen_immutable(rng):
+    """code with symbolic immutables: `concrete prefix | PUSH32 <symbolic word> | concrete rest` (what a deployed contract
+    with an immutable / symbolic constructor argument looks like), one or two holes, with JUMPDESTs and jumps located
+    AFTER the holes, a 0x5b byte inside push data, branches on the immutable itself, on calldata, and CODECOPY across a hole.
+    The hole words are inputs a{nargs+j}: the reference EVM runs the code with the holes filled by the input's words."""
+    nargs = rng.choice([1, 2])
+    nholes = rng.choice([1, 1, 2])
+    hist = {f"immutable:holes{nholes}": 1}
+    pre = rng.choice([[], ["JUMPDEST"], [("push", 7), "POP"], [("push", 0x5B5B), "POP"], ["JUMPDEST", ("push", 1), "POP", "JUMPDEST"]])
+    hole = [("raw", b"\x7f" + bytes(32))]
+    arg = lambda i: [("push", 4 + 32 * i), "CALLDATALOAD"]
+    items, offs = list(pre), []
+    # first hole right after the label-free prefix (its offset is the assembled length + 1)
+    offs.append(len(asm.assemble(items)) + 1)
+    items += hole                                   # stack: imm0
+    items += [("push", 0x80), "MSTORE"]             # mem[0x80] = imm0
+    if nholes == 2:
+        mid = rng.choice([[], [("push", 3), "POP"], ["JUMPDEST"]])
+        items += mid
+        offs.append(len(asm.assemble(items)) + 1)
+        items += hole + [("push", 0xA0), "MSTORE"]  # mem[0xa0] = imm1
+    shape = rng.choice(["jumpi-arg", "jumpi-imm", "jumpi-imm-eq-arg", "jump", "two-level", "codecopy"])
+    hist["immutable:" + shape] = 1
+    ret = lambda v: [("push", v), ("push", 0), "MSTORE", ("push", 0xC0), ("push", 0), "RETURN"]   # returns v ‖ … ‖ imm words
+    rev = lambda v: [("push", v), ("push", 0), "MSTORE", ("push", 0x20), ("push", 0), "REVERT"]
+    end = lambda v: rng.choice([ret, ret, rev])(v)
+    if shape == "jumpi-arg":
+        cond = rng.choice([arg(0) + [("push", 1), "AND"], [("push", rng.randrange(4))] + arg(0) + ["EQ"], arg(0) + ["ISZERO"]])
+        items += cond + [("ref", "A"), "JUMPI"] + end(1) + [("label", "A")] + end(2)
+    elif shape == "jumpi-imm":
+        cond = rng.choice([[("push", 0x80), "MLOAD", ("push", 1), "AND"], [("push", 0x80), "MLOAD", "ISZERO"],
+                           [("push", rng.choice([0, 1, 0x5B, 1 << 255])), ("push", 0x80), "MLOAD", "EQ"]])
+        items += cond + [("ref", "A"), "JUMPI"] + end(1) + [("label", "A")] + end(2)
+    elif shape == "jumpi-imm-eq-arg":
+        items += arg(0) + [("push", 0x80), "MLOAD", "EQ", ("ref", "A"), "JUMPI"] + end(1) + [("label", "A")] + end(2)
+    elif shape == "jump":
+        items += [("ref", "A"), "JUMP", "INVALID", ("push", 0x5B5B), "POP", ("label", "A")] + end(3)
+    elif shape == "two-level":
+        items += (arg(0) + [("push", 1), "AND", ("ref", "A"), "JUMPI"] + end(1) + [("label", "A")]
+                  + [("push", 0x80), "MLOAD", ("push", 1), "AND", ("ref", "B"), "JUMPI"] + end(2) + [("label", "B")] + end(3))
+    else:
+        # CODECOPY of a window that covers (part of) the first hole, then a jump over a data island
+        o = max(0, offs[0] - rng.choice([0, 1, 3]))
+        items += [("push", rng.choice([8, 32, 40])), ("push", o), ("push", 0x20), "CODECOPY", ("ref", "A"), "JUMP", ("raw", b"\x60\x5b"), ("label", "A")] + end(4)
+    code = asm.assemble(items)
+    for off in offs:
+        assert code[off - 1] == 0x7F and code[off:off + 32] == bytes(32), "hole offset"
+    return Scenario({MAIN: code}, nargs=nargs, immutables={MAIN: offs}), hist
